@@ -6,11 +6,12 @@ import concfacts
 TSAN_SRCS = ["src/monitoring/OnlineAverage.cpp", "src/monitoring/OnlineVariance.cpp", "src/monitoring/RateMonitoring.cpp",
              "src/diagnostics/CheckupRate.cpp", "src/diagnostics/CheckupReliability.cpp", "src/diagnostics/Diagnostic.cpp",
              "src/diagnostics/DiagnosticReport.cpp", "src/diagnostics/DiagnosticStatus.cpp"]
-SCENARIOS = ["shared_variable", "shared_optional", "online_stats", "checkup_equal", "checkup_greater", "checkup_lower",
+SCENARIOS = ["shared_variable", "shared_optional", "shared_optional_lin", "online_stats", "checkup_equal", "checkup_greater", "checkup_lower",
              "reliability", "rate_equal", "rate_greater", "rate_monitoring"]
 # which classes of the generated facts each scenario exercises (for the cross-validation facts <-> ThreadSanitizer)
 SCENARIO_CLASSES = {
     "shared_variable": ["SharedVariable<int>"], "shared_optional": ["SharedOptionalVariable<int>"],
+    "shared_optional_lin": ["SharedOptionalVariable<int>"],
     "online_stats": ["OnlineAverage", "OnlineVariance"], "checkup_equal": ["CheckupEqualTo<double>", "Checkup<double>"],
     "checkup_greater": ["CheckupGreaterThan<double>", "Checkup<double>"], "checkup_lower": ["CheckupLowerThan<double>", "Checkup<double>"],
     "reliability": ["CheckupReliability"],
@@ -156,7 +157,7 @@ CHECK = {
     "oracle": oracle,
     "extra_checks": extra_checks,
     "coverage_extra": coverage_extra,
-    "rule": "serial op sequences (store/load, store/consume) for the model correspondence; ThreadSanitizer runs of 10 scenarios "
+    "rule": "serial op sequences (store/load, store/consume) for the model correspondence; ThreadSanitizer runs of 11 scenarios (one of them judges EMPTY consume results against every sequential ordering) "
             "(1 writer + 1..8 readers, producers/consumers for the optional variable) with linearizability checks; every case counts",
     "trusted": ["translator translate/concfacts.py + clang 14 AST (which member is accessed where, lock_guard scopes, escaping references)",
                 "std::mutex gives mutual exclusion and happens-before (C++ memory model)", "ThreadSanitizer (schedule search only)",
